@@ -792,6 +792,37 @@ class Check:
 
         with cf.ThreadPoolExecutor(NCPU) as ex:
             list(ex.map(solve_one, built))
+        # second chance for obligations that ran out of (wall-clock) time while 16 solvers shared a possibly loaded machine:
+        # re-ask them a few at a time with four times the budget; anything still undecided stays undecided
+        late = [ob for ob in built if ob.status not in ("unsat", "sat", "rejected", "disagree") and ob.kind != "stretch" and getattr(ob, "_vars", None) is not None]
+        if late:
+            for ob in late:
+                try:
+                    routes = ob.routes or INT_ROUTES
+                    ob._texts = {}
+                    for r in routes:
+                        em = solve.ROUTES[r][0]
+                        if em not in ob._texts:
+                            try:
+                                ob._texts[em] = smt.emit(em, [ob._asr], ob._vars)
+                            except smt.EmitUnsupported:
+                                ob._texts[em] = None
+                except Exception:   # noqa
+                    ob._texts = None
+
+            def solve_late(ob):
+                if not ob._texts:
+                    return ob
+                first = list(ob.attempts)
+                to = (ob.timeout or timeout) * 4
+                r = solve.solve(None, ob._vars, ob.routes or INT_ROUTES, to, self.workdir, texts=ob._texts)
+                ob.status, ob.route, ob.secs, ob.model = r.status, r.route, ob.secs + r.secs, r.model
+                ob.attempts = first + r.attempts
+                ob._texts = None
+                return ob
+            with cf.ThreadPoolExecutor(4) as ex:
+                list(ex.map(solve_late, late))
+            self.extra_cov["obligations_decided_on_second_attempt"] = sum(1 for ob in late if ob.status in ("unsat", "sat"))
         for ob in obs:
             for route, st, secs in ob.attempts:
                 d = self.stats["solver_s"].setdefault(route, [0, 0.0])
